@@ -420,6 +420,33 @@ func TestVerifBoundedV1Names(t *testing.T) {
 			}
 		}
 	}
+	// the other kinds and mixed lists: [1] mail, [2] dns, [7] ip in list order
+	type comp struct {
+		typ, name string
+		tag       byte
+		val       string
+	}
+	pool := []comp{{"mail", "a@b.c", 0x81, "a@b.c"}, {"dns", "x.example", 0x82, "x.example"}, {"ip", "1.2.3.4", 0x87, "\x01\x02\x03\x04"}, {"dns", "second.example.org", 0x82, "second.example.org"}}
+	for _, a := range pool {
+		for _, b := range pool {
+			n++
+			bd, err := SubjectAltName{Content: []SubjAltNameComponent{{Type: a.typ, Name: a.name}, {Type: b.typ, Name: b.name}}}.Builder()
+			if err != nil {
+				fmt.Printf("VERIF-BOUNDED: violation subjectAlternativeName [%s %s] fails: %v\n", a.typ, b.typ, err)
+				return
+			}
+			ext, err := bd.Compile(nil)
+			want := string([]byte{a.tag, byte(len(a.val))}) + a.val + string([]byte{b.tag, byte(len(b.val))}) + b.val
+			if err != nil || len(ext.Value) < 2 || ext.Value[0] != 0x30 || int(ext.Value[1]) != len(want) || string(ext.Value[2:]) != want {
+				fmt.Printf("VERIF-BOUNDED: violation subjectAlternativeName [%s:%s %s:%s] encoded as % x\n", a.typ, a.name, b.typ, b.name, ext.Value)
+				return
+			}
+		}
+	}
+	if _, err := (SubjectAltName{Content: []SubjAltNameComponent{{Type: "bogus", Name: "x"}}}).Builder(); err == nil {
+		fmt.Printf("VERIF-BOUNDED: violation subjectAlternativeName of unknown kind accepted\n")
+		return
+	}
 	for _, ip := range []string{"1.2.3", "1.2.3.4.5", "", "1..2.3"} {
 		n++
 		if _, err := (SubjectAltName{Content: []SubjAltNameComponent{{Type: "ip", Name: ip}}}).Builder(); err == nil {
